@@ -142,10 +142,13 @@ class Context:
         elif isinstance(expr, ast.TypeCast):
             a = self.eval_const(expr.a)
             to_type = self.get_type(expr.to_type)
-            if self.equal_types("int", expr.to_type):
-                return int(a)
-            elif self.equal_types("byte", expr.to_type):
-                return int(a) & 0xFF
+            if isinstance(to_type, ast.IntegerType):
+                # Wrap the value into the range of the integer type:
+                value = int(a) & ((1 << to_type.bits) - 1)
+                if isinstance(to_type, ast.SignedIntegerType):
+                    if value >> (to_type.bits - 1):
+                        value -= 1 << to_type.bits
+                return value
             elif isinstance(to_type, ast.FloatType):
                 return float(a)
             elif isinstance(to_type, ast.PointerType):
